@@ -21,7 +21,7 @@ func TestVF_C16_WorkerStop(t *testing.T) {
 	item := 0
 	for rep := 0; rep < reps; rep++ {
 		for _, style := range styles {
-			for _, bits := range []int{32, 64, 80} {
+			for _, bits := range []int{32, 33, 64, 65, 80} {
 				item++
 				if !rec.Mine(item) {
 					continue
@@ -76,7 +76,9 @@ func TestVF_C16_WorkerStop(t *testing.T) {
 				}
 				rec.Case("worker-stop/"+style, true, fmt.Sprintf("ws|%s|%d|%d|%d", style, bits, k, rep))
 				if rep == 0 {
-					rec.Sample(func() any { return map[string]any{"stop_style": style, "bits": bits, "results_read_before_stop": k, "GOMAXPROCS": runtime.GOMAXPROCS(0)} })
+					rec.Sample(func() any {
+						return map[string]any{"stop_style": style, "bits": bits, "results_read_before_stop": k, "GOMAXPROCS": runtime.GOMAXPROCS(0)}
+					})
 				}
 				if left > 0 {
 					rec.FailT("safe-prime-workers-left-running:"+style, map[string]any{"bits": bits, "results_read": k, "goroutines_left": left})
